@@ -467,11 +467,11 @@ Section Collapse.
         destruct (dirty path); try discriminate;
         match type of CH with match ?X with _ => _ end = _ => destruct X as [e|] eqn:EN end; try discriminate;
         destruct (hashedb force e) eqn:Hh; try discriminate; inversion CH; subst;
-        exists e; (split; [exact EN|]); left; split; reflexivity.
+        exists e; (split; [exact EN|]); left; (split; [exact Hh|reflexivity]).
     - destruct n as [|v|k c|cs|hh]; try discriminate.
       + assert (X : exists c' ns1, short_body H k c' = short_body H k c /\
                     store_node H tr force path (NShort k c') ns1 = Some (n', ns')).
-        { destruct c as [|v|k0 cc|cs|h]; try (exists c, ns; split; [reflexivity|exact E]).
+        { destruct c as [|v|k0 cc|cs|h]; try (eexists _, ns; split; [|exact E]; reflexivity).
           destruct (commit_node H f dirty tr false (path ++ k) (NFull cs) ns) as [[c' ns1]|] eqn:RC;
             [|discriminate].
           exists c', ns1. split; [|exact E]. apply collapse_short_body. eapply IH. exact RC. }
@@ -479,7 +479,7 @@ Section Collapse.
         eapply store_node_collapse; [| |
           |exact ST]; try reflexivity.
         rewrite !node_enc_short, SB. reflexivity.
-      + destruct (commit_children H (commit_node H f dirty tr false) path 0 cs ns) as [[cs' ns1]|] eqn:CC;
+      + destruct (commit_children (commit_node H f dirty tr false) path 0 cs ns) as [[cs' ns1]|] eqn:CC;
           [|discriminate].
         eapply store_node_collapse; [| | |exact E]; try reflexivity.
         rewrite !node_enc_full.
@@ -487,4 +487,374 @@ Section Collapse.
         cbn in CC. rewrite CC. reflexivity.
       + inversion E; subst. reflexivity.
   Qed.
+
+  (* a node that is not skipped as clean is rebuilt from its committed children
+     (same encoding) and handed to committer.store *)
+  Lemma commit_node_store f dirty tr force path n ns n' ns' :
+    commit_node H (Datatypes.S f) dirty tr force path n ns = Some (n', ns') ->
+    clean_hashed H dirty force path n = None -> is_sf n = true ->
+    exists n2 ns1, node_enc H n2 = node_enc H n /\ is_sf n2 = true /\ store_node H tr force path n2 ns1 = Some (n', ns').
+  Proof.
+    intros E CH SF. cbn [commit_node] in E. rewrite CH in E.
+    destruct n as [|v|k c|cs|hh]; try discriminate.
+    - assert (X : exists c' ns1, short_body H k c' = short_body H k c /\
+                  store_node H tr force path (NShort k c') ns1 = Some (n', ns')).
+      { destruct c as [|v|k0 cc|cs|h]; try (eexists _, ns; split; [|exact E]; reflexivity).
+        destruct (commit_node H f dirty tr false (path ++ k) (NFull cs) ns) as [[c' ns1]|] eqn:RC;
+          [|discriminate].
+        exists c', ns1. split; [|exact E]. apply collapse_short_body. eapply commit_node_collapse. exact RC. }
+      destruct X as (c' & ns1 & SB & ST).
+      exists (NShort k c'), ns1. split; [|split; [reflexivity|exact ST]].
+      rewrite !node_enc_short, SB. reflexivity.
+    - destruct (commit_children (commit_node H f dirty tr false) path 0 cs ns) as [[cs' ns1]|] eqn:CC;
+        [|discriminate].
+      exists (NFull cs'), ns1. split; [|split; [reflexivity|exact E]].
+      rewrite !node_enc_full.
+      eapply commit_children_enc in CC; [|intros; eapply commit_node_collapse; eassumption].
+      cbn in CC. rewrite CC. reflexivity.
+  Qed.
 End Collapse.
+
+(* ------------------------------------------------------------------ *)
+(* node-set entries carry the recorded pre-value                       *)
+(* ------------------------------------------------------------------ *)
+Section Entries.
+  Variable H : list N -> list N.
+
+  Definition entry_ok (tr : tracer) (p : list N) (e : nentry) : Prop :=
+    match e with
+    | Del prev => prev <> [] /\ am_get p (tr_pv tr) = Some prev
+    | Upd h blob prev => h = H blob /\ prev = pv_get p tr
+    end.
+  Definition ns_ok (tr : tracer) (ns : nodeset) : Prop :=
+    forall p e, am_get p ns = Some e -> entry_ok tr p e.
+
+  (* recorded pre-values are never empty *)
+  Definition pv_ne (tr : tracer) : Prop := forall p b, am_get p (tr_pv tr) = Some b -> b <> [].
+
+  Lemma ns_ok_nil tr : ns_ok tr [].
+  Proof. intros p e E. discriminate. Qed.
+
+  Lemma ns_ok_put tr p e ns : entry_ok tr p e -> ns_ok tr ns -> ns_ok tr (am_put p e ns).
+  Proof.
+    intros Oe O q e' E. rewrite am_get_put in E. destruct (bytes_eqb q p) eqn:Q.
+    - apply beqb_eq in Q. inversion E; subst. exact Oe.
+    - apply O. exact E.
+  Qed.
+
+  Lemma store_node_ns_ok tr force path n ns n' ns' :
+    store_node H tr force path n ns = Some (n', ns') -> ns_ok tr ns -> ns_ok tr ns'.
+  Proof.
+    unfold store_node. intros E O. destruct (node_enc H n) as [e|]; [|discriminate].
+    destruct (hashedb force e).
+    - inversion E; subst. apply ns_ok_put; [|exact O]. split; reflexivity.
+    - destruct (pv_get path tr) as [|x r] eqn:PV; inversion E; subst; [exact O|].
+      apply ns_ok_put; [|exact O]. split; [discriminate|].
+      unfold pv_get in PV. destruct (am_get path (tr_pv tr)); [congruence|discriminate].
+  Qed.
+
+  Lemma commit_children_ns_ok tr rec path :
+    (forall p c ns c' ns', rec p c ns = Some (c', ns') -> ns_ok tr ns -> ns_ok tr ns') ->
+    forall l i ns l' ns', commit_children rec path i l ns = Some (l', ns') -> ns_ok tr ns -> ns_ok tr ns'.
+  Proof.
+    intros R. induction l as [|c r IH]; intros i ns l' ns' E O.
+    - inversion E; subst. exact O.
+    - rewrite commit_children_cons in E.
+      destruct (child_step rec path i c ns) as [[c' ns1]|] eqn:CS; [|discriminate].
+      destruct (commit_children rec path (i + 1) r ns1) as [[r' ns'']|] eqn:CC; [|discriminate].
+      inversion E; subst. eapply IH; [exact CC|].
+      apply child_step_cases in CS. destruct CS as [(_ & -> & _)|(_ & RC)]; [exact O|].
+      eapply R; eassumption.
+  Qed.
+
+  Lemma commit_node_ns_ok : forall f dirty tr force path n ns n' ns',
+    commit_node H f dirty tr force path n ns = Some (n', ns') -> ns_ok tr ns -> ns_ok tr ns'.
+  Proof.
+    induction f as [|f IH]; intros dirty tr force path n ns n' ns' E O; cbn [commit_node] in E; [discriminate|].
+    destruct (clean_hashed H dirty force path n) as [h|].
+    - inversion E; subst. exact O.
+    - destruct n as [|v|k c|cs|hh]; try discriminate.
+      + assert (X : exists c' ns1, ns_ok tr ns1 /\
+                    store_node H tr force path (NShort k c') ns1 = Some (n', ns')).
+        { destruct c as [|v|k0 cc|cs|h]; try (eexists _, ns; split; [|exact E]; exact O).
+          destruct (commit_node H f dirty tr false (path ++ k) (NFull cs) ns) as [[c' ns1]|] eqn:RC;
+            [|discriminate].
+          exists c', ns1. split; [|exact E]. eapply IH; eassumption. }
+        destruct X as (c' & ns1 & O1 & ST). eapply store_node_ns_ok; eassumption.
+      + destruct (commit_children (commit_node H f dirty tr false) path 0 cs ns) as [[cs' ns1]|] eqn:CC;
+          [|discriminate].
+        eapply store_node_ns_ok; [exact E|].
+        eapply commit_children_ns_ok; [|exact CC|exact O].
+        intros; eapply IH; eassumption.
+      + inversion E; subst. exact O.
+  Qed.
+
+  Lemma deleted_nodes_has tr p : In p (deleted_nodes tr) -> am_has p (tr_pv tr) = true.
+  Proof.
+    unfold deleted_nodes. intro I. apply in_map_iff in I. destruct I as ([q u] & <- & I).
+    apply filter_In in I. exact (proj2 I).
+  Qed.
+
+  Lemma add_deletions_ns_ok tr ns : pv_ne tr -> ns_ok tr ns -> ns_ok tr (add_deletions tr ns).
+  Proof.
+    intros NE. unfold add_deletions.
+    assert (X : forall l ns0, (forall p, In p l -> am_has p (tr_pv tr) = true) -> ns_ok tr ns0 ->
+              ns_ok tr (fold_left (fun ns1 p => am_put p (Del (pv_get p tr)) ns1) l ns0)).
+    { induction l as [|p l IH]; intros ns0 A O; cbn; [exact O|].
+      apply IH; [intros q I; apply A; right; exact I|].
+      apply ns_ok_put; [|exact O].
+      assert (Hp : am_has p (tr_pv tr) = true) by (apply A; left; reflexivity).
+      apply am_has_true in Hp. destruct Hp as [b Hb].
+      unfold pv_get. rewrite Hb. split; [eapply NE; exact Hb|exact Hb]. }
+    intro O. apply X; [|exact O]. intros p I. apply deleted_nodes_has. exact I.
+  Qed.
+
+  Lemma commit_ns_ok ss r ns :
+    commit H ss = Some (r, Some ns) -> pv_ne (s_tr ss) -> ns_ok (s_tr ss) ns.
+  Proof.
+    unfold commit. intros E NE.
+    destruct (s_root ss) as [|v|k c|cs|h] eqn:RT.
+    1: { destruct (deleted_nodes (s_tr ss)) eqn:D; inversion E; subst.
+         apply add_deletions_ns_ok; [exact NE|apply ns_ok_nil]. }
+    all: repeat (dmatch E; try discriminate); inversion E; subst;
+      (eapply commit_node_ns_ok; [eassumption|]);
+      (apply add_deletions_ns_ok; [exact NE|apply ns_ok_nil]).
+  Qed.
+End Entries.
+
+(* ------------------------------------------------------------------ *)
+(* sessions: every history of Update/Delete/Get on an opened trie      *)
+(* ------------------------------------------------------------------ *)
+Section Sessions.
+  Variable H : list N -> list N.
+  Hypothesis H_len : forall x, length (H x) = 32%nat.
+  Variable sc : scheme.
+  Variable S : store.
+
+  (* the states a trie session can reach: trie.New, then any operations *)
+  Inductive reach : sess -> Prop :=
+  | reach_open root ss : open_trie H sc S root = TOk ss -> reach ss
+  | reach_update ss k v ss' : reach ss -> sess_update H sc S ss k v = TOk ss' -> reach ss'
+  | reach_get ss k v ss' : reach ss -> sess_get H sc S ss k = TOk (v, ss') -> reach ss'.
+
+  Lemma reach_pv_ok ss : reach ss -> pv_ok (resolve_of H sc S) (s_tr ss).
+  Proof.
+    induction 1 as [root ss O|ss k v ss' R IH U|ss k v ss' R IH G].
+    - unfold open_trie in O. destruct (bytes_eqb root (H empty_root_preimage)).
+      + inversion O; subst. apply pv_ok_empty.
+      + destruct (resolve_of H sc S root []) as [[n blob]|] eqn:RS; inversion O; subst.
+        cbn. eapply pv_ok_put; [exact RS|apply pv_ok_empty].
+    - unfold sess_update in U.
+      destruct v as [|v0 vr].
+      + destruct (delete (resolve_of H sc S) (ops_fuel (keybytes_to_hex k)) (s_root ss) [] (keybytes_to_hex k))
+          as [[[d n] ev]|e] eqn:D; inversion U; subst. cbn.
+        apply trace_evs_pv_ok; [eapply delete_evs_ok; exact D|exact IH].
+      + destruct (insert (resolve_of H sc S) (ops_fuel (keybytes_to_hex k)) (s_root ss) [] (keybytes_to_hex k)
+                         (NValue (v0 :: vr))) as [[[d n] ev]|e] eqn:D; inversion U; subst. cbn.
+        apply trace_evs_pv_ok; [eapply insert_evs_ok; exact D|exact IH].
+    - unfold sess_get, trie_get in G.
+      destruct (get (resolve_of H sc S) (ops_fuel (keybytes_to_hex k)) (s_root ss) [] (keybytes_to_hex k))
+        as [[[[v1 n] d] ev]|e] eqn:D; inversion G; subst. cbn.
+      apply trace_evs_pv_ok; [eapply get_evs_ok; exact D|exact IH].
+  Qed.
+
+  Lemma resolve_of_blob h p n b :
+    resolve_of H sc S h p = Some (n, b) ->
+    b <> [] /\ am_get (match sc with PathScheme => p | HashScheme => h end) S = Some b /\
+    (sc = PathScheme -> H b = h).
+  Proof.
+    unfold resolve_of. intro E.
+    assert (X : exists b0, (match sc with
+                            | HashScheme => am_get h S
+                            | PathScheme => match am_get p S with
+                                            | Some b => if bytes_eqb (H b) h then Some b else None
+                                            | None => None
+                                            end
+                            end) = Some b0 /\ decode_node b0 = DOk n /\ b0 = b).
+    { dmatch E; [|discriminate]. exists l. split; [reflexivity|].
+      destruct (decode_node l) eqn:D; inversion E; subst. split; reflexivity. }
+    destruct X as (b0 & L & D & <-).
+    split; [intro Z; subst; cbn in D; discriminate|].
+    destruct sc.
+    - split; [exact L|discriminate].
+    - destruct (am_get p S) as [b1|]; [|discriminate].
+      destruct (bytes_eqb (H b1) h) eqn:HB; inversion L; subst.
+      split; [reflexivity|]. intros _. apply beqb_eq. exact HB.
+  Qed.
+
+  Lemma reach_pv_ne ss : reach ss -> pv_ne (s_tr ss).
+  Proof.
+    intros R p b E. apply reach_pv_ok in R. destruct (R p b E) as (h & n & RS).
+    apply resolve_of_blob in RS. tauto.
+  Qed.
+
+  (* C07 deletions_carry_prev: every deletion of the committed node set carries a
+     non-empty previous value, and it is the blob the session read at that path *)
+  Theorem deletions_carry_prev ss r ns p prev :
+    reach ss -> commit H ss = Some (r, Some ns) -> am_get p ns = Some (Del prev) ->
+    prev <> [] /\
+    exists h n, resolve_of H sc S h p = Some (n, prev).
+  Proof.
+    intros R C G. pose proof (commit_ns_ok H ss r ns C (reach_pv_ne ss R) p _ G) as [NE PV].
+    split; [exact NE|]. exact (reach_pv_ok ss R p prev PV).
+  Qed.
+
+  (* written nodes carry their hash, and as previous value either nothing or the
+     blob the session read at that path *)
+  Theorem updates_carry_prev ss r ns p h blob prev :
+    reach ss -> commit H ss = Some (r, Some ns) -> am_get p ns = Some (Upd h blob prev) ->
+    h = H blob /\ (prev = [] \/ exists h' n, resolve_of H sc S h' p = Some (n, prev)).
+  Proof.
+    intros R C G. pose proof (commit_ns_ok H ss r ns C (reach_pv_ne ss R) p _ G) as [HH PV].
+    split; [exact HH|]. unfold pv_get in PV.
+    destruct (am_get p (tr_pv (s_tr ss))) as [b|] eqn:E; [|left; exact PV].
+    right. subst prev. exact (reach_pv_ok ss R p b E).
+  Qed.
+End Sessions.
+
+(* under the path scheme "the blob read at that path" is the blob stored at that path *)
+Theorem deletions_carry_prev_path H S ss r ns p prev :
+  reach H PathScheme S ss -> commit H ss = Some (r, Some ns) -> am_get p ns = Some (Del prev) ->
+  prev <> [] /\ am_get p S = Some prev.
+Proof.
+  intros R C G. destruct (deletions_carry_prev H PathScheme S ss r ns p prev R C G) as (NE & h & n & RS).
+  split; [exact NE|]. apply resolve_of_blob in RS. tauto.
+Qed.
+
+Theorem updates_carry_prev_path H S ss r ns p h blob prev :
+  reach H PathScheme S ss -> commit H ss = Some (r, Some ns) -> am_get p ns = Some (Upd h blob prev) ->
+  h = H blob /\ (prev = [] \/ am_get p S = Some prev).
+Proof.
+  intros R C G. destruct (updates_carry_prev H PathScheme S ss r ns p h blob prev R C G) as (HH & [E|(h' & n & RS)]).
+  - split; [exact HH|left; exact E].
+  - split; [exact HH|right]. apply resolve_of_blob in RS. tauto.
+Qed.
+
+(* ------------------------------------------------------------------ *)
+(* the committed root                                                  *)
+(* ------------------------------------------------------------------ *)
+Section Root.
+  Variable H : list N -> list N.
+  Hypothesis H_len : forall x, length (H x) = 32%nat.
+
+  Lemma commit_root_entry dirty tr n ns n' ns' :
+    commit_node H commit_fuel dirty tr true [] n ns = Some (n', ns') ->
+    dirty [] = true -> is_sf n = true ->
+    exists e, node_enc H n = Some e /\ n' = NHash (H e) /\
+              am_get [] ns' = Some (Upd (H e) e (pv_get [] tr)).
+  Proof.
+    intros E D SF. unfold commit_fuel in E.
+    apply (commit_node_store H H_len) in E; [|destruct n; try discriminate; unfold clean_hashed; rewrite D; reflexivity|exact SF].
+    destruct E as (n2 & ns1 & EN & _ & ST). unfold store_node in ST. rewrite EN in ST.
+    destruct (node_enc H n) as [e|]; [|discriminate]. cbn [hashedb orb] in ST.
+    inversion ST; subst. exists e. split; [reflexivity|]. split; [reflexivity|].
+    apply am_get_put_same.
+  Qed.
+
+  Lemma hash_root_sf n e : is_sf n = true -> node_enc H n = Some e -> hash_root H n = Some (H e).
+  Proof.
+    intros SF EN. destruct n; try discriminate; cbn [hash_root node_ref]; rewrite EN, andb_false_r; reflexivity.
+  Qed.
+
+  (* C07 commit_root_eq_hash: the returned root is Trie.Hash() of the in-memory
+     trie; when a node set is returned for a non-empty trie, the committer
+     collapsed the root to exactly that hash node, and the set's entry at the
+     empty path is the encoding of the in-memory root, hashing to the root *)
+  Theorem commit_root_eq_hash ss r ons :
+    commit H ss = Some (r, ons) ->
+    hash_root H (s_root ss) = Some r /\
+    forall ns, ons = Some ns -> is_sf (s_root ss) = true ->
+      exists e, node_enc H (s_root ss) = Some e /\ H e = r /\
+                am_get [] ns = Some (Upd r e (pv_get [] (s_tr ss))) /\
+                exists ns0, commit_node H commit_fuel (dirty_at ss) (s_tr ss) true []
+                                        (s_root ss) ns0 = Some (NHash r, ns).
+  Proof.
+    unfold commit. intro E.
+    destruct (s_root ss) as [|v|k c|cs|h] eqn:RT.
+    - split; [|intros ns _ X; discriminate].
+      destruct (deleted_nodes (s_tr ss)); inversion E; subst; reflexivity.
+    - cbn in E. discriminate.
+    - destruct (hash_root H (NShort k c)) as [rh|] eqn:HR; [|discriminate].
+      destruct (negb (dirty_at ss [])) eqn:DR; [inversion E; subst; split; [reflexivity|discriminate]|].
+      apply negb_false_iff in DR.
+      dmatch E; [|discriminate]. destruct p as [[| | | |h'] ns1]; try discriminate.
+      inversion E; subst. split; [reflexivity|]. intros ns X _. inversion X; subst.
+      destruct (commit_root_entry _ _ _ _ _ _ Heqo DR eq_refl) as (e & EN & HN & G).
+      inversion HN; subst. rewrite (hash_root_sf _ _ (eq_refl : is_sf (NShort k c) = true) EN) in HR. inversion HR; subst.
+      exists e. split; [exact EN|]. split; [reflexivity|]. split; [exact G|]. eexists. exact Heqo.
+    - destruct (hash_root H (NFull cs)) as [rh|] eqn:HR; [|discriminate].
+      destruct (negb (dirty_at ss [])) eqn:DR; [inversion E; subst; split; [reflexivity|discriminate]|].
+      apply negb_false_iff in DR.
+      dmatch E; [|discriminate]. destruct p as [[| | | |h'] ns1]; try discriminate.
+      inversion E; subst. split; [reflexivity|]. intros ns X _. inversion X; subst.
+      destruct (commit_root_entry _ _ _ _ _ _ Heqo DR eq_refl) as (e & EN & HN & G).
+      inversion HN; subst. rewrite (hash_root_sf _ _ (eq_refl : is_sf (NFull cs) = true) EN) in HR. inversion HR; subst.
+      exists e. split; [exact EN|]. split; [reflexivity|]. split; [exact G|]. eexists. exact Heqo.
+    - (* the root is an unresolved hash node: cannot happen after trie.New, which
+         resolves the root; the model then returns the node unchanged *)
+      cbn [hash_root node_ref] in E. cbn [negb] in E. cbn [commit_node commit_fuel clean_hashed] in E.
+      inversion E; subst. split; [reflexivity|]. intros ns X Y. discriminate.
+  Qed.
+End Root.
+
+(* ------------------------------------------------------------------ *)
+(* a concrete two-generation history (for the non-vacuity examples);    *)
+(* the toy hash keeps the first 32 bytes (zero padded)                  *)
+(* ------------------------------------------------------------------ *)
+Definition toyH (x : list N) : list N := firstn 32 (x ++ repeat 0 32).
+Lemma toyH_len x : length (toyH x) = 32%nat.
+Proof. unfold toyH. rewrite firstn_length, app_length, repeat_length. lia. Qed.
+
+Definition ex_v (b : N) : list N := repeat b 40.
+Definition ex_updates (sc : scheme) (S : store) (ss : sess) (kvs : list (list N * list N)) : option sess :=
+  fold_left (fun o kv => match o with
+                         | Some s => match sess_update toyH sc S s (fst kv) (snd kv) with
+                                     | TOk s' => Some s' | TErr _ => None end
+                         | None => None end) kvs (Some ss).
+(* generation 1: three keys with 40-byte values into the empty path-scheme store *)
+Definition ex_gen1 : option (list N * store) :=
+  match open_trie toyH PathScheme [] (toyH empty_root_preimage) with
+  | TOk s0 =>
+      match ex_updates PathScheme [] s0 [([18], ex_v 1); ([19], ex_v 2); ([36], ex_v 3)] with
+      | Some s1 => match commit toyH s1 with
+                   | Some (r, Some ns) => Some (r, apply_nodeset PathScheme ns [])
+                   | _ => None
+                   end
+      | None => None
+      end
+  | TErr _ => None
+  end.
+Definition ex_root1 : list N := Eval vm_compute in match ex_gen1 with Some (r, _) => r | None => [] end.
+Definition ex_S1 : store := Eval vm_compute in match ex_gen1 with Some (_, s) => s | None => [] end.
+(* generation 2: delete key 0x13 — the branch at path [1] collapses into a leaf *)
+Definition ex_ss2 : option sess :=
+  match open_trie toyH PathScheme ex_S1 ex_root1 with
+  | TOk s0 => ex_updates PathScheme ex_S1 s0 [([19], [])]
+  | TErr _ => None
+  end.
+
+(* generation 2 commits a set with an updated root, an updated node at [1] and
+   deletions at [1;2] and [1;3] carrying the blobs stored there *)
+Definition c07_example_ok : bool :=
+  match ex_ss2 with
+  | Some ss =>
+      match commit toyH ss with
+      | Some (r, Some ns) =>
+          is_sf (s_root ss) &&
+          match am_get [1; 2] ns, am_get [1; 2] ex_S1, am_get [1; 3] ns, am_get [1] ns, am_get [] ns with
+          | Some (Del p1), Some b1, Some (Del p2), Some (Upd _ _ _), Some (Upd h _ _) =>
+              bytes_eqb p1 b1 && negb (bytes_eqb p1 []) && negb (bytes_eqb p2 []) && bytes_eqb h r
+          | _, _, _, _, _ => false
+          end
+      | _ => false
+      end
+  | None => false
+  end.
+
+Lemma ex_ss2_reach ss : ex_ss2 = Some ss -> reach toyH PathScheme ex_S1 ss.
+Proof.
+  unfold ex_ss2. destruct (open_trie toyH PathScheme ex_S1 ex_root1) as [s0|e] eqn:O; [|discriminate].
+  unfold ex_updates. cbn [fold_left fst snd].
+  destruct (sess_update toyH PathScheme ex_S1 s0 [19] []) as [s1|e] eqn:U; [|discriminate].
+  intro E. inversion E; subst. eapply reach_update; [eapply reach_open; exact O|exact U].
+Qed.
